@@ -95,7 +95,9 @@ BATCHES: List[List[Tuple[str, str, str]]] = [
     [("m", "é", "int"), ("m", "É", "int"), ("m", "x", "bad")],
     [],
     [("m", "a*b", "int"), ("m", "a?b", "int"), ("m", "my[_X]func", "int")],
+    [("m2", f"big{i:04d}", "int") for i in range(1200)],   # index 12: a batch larger than any plausible chunk size
 ]
+BIG = 12
 
 
 def prefixes() -> List[Optional[str]]:
@@ -224,7 +226,8 @@ def enabled(nconn: int) -> List[Tuple]:
     evs: List[Tuple] = []
     for c in range(nconn):
         for b in range(len(BATCHES)):
-            evs.append(("add", c, b))
+            if b != BIG:
+                evs.append(("add", c, b))
     evs.append(("reopen", 0))
     if nconn < 3:
         evs.append(("open",))
@@ -582,18 +585,19 @@ def syscall_crashes(ctx: Ctx, res: Result, path: str, pre: List[int], b: int, ba
 
 
 def explore_faults(ctx: Ctx) -> Result:
-    combos = [(pre, b) for pre in ([], [0, 5]) for b in (1, 2, 7, 8, 9, 6)]
+    combos = [(pre, b) for pre in ([], [0, 5]) for b in (1, 2, 7, 8, 9, 6)] + [([], BIG)]
 
     def work(ctx: Ctx, combo) -> Result:
         from monkeytype.db.sqlite import SQLiteStore
 
         res = Result()
         pre, b = combo
+        stride = 1 if b != BIG else 487   # the 1200-row batch (~16 000 VM steps) is aborted at every 487th step
         path = str(ctx.tmp / f"f_{os.getpid()}.sqlite3")
         batch_rows = [r for r in (row_of(s) for s in BATCHES[b]) if r is not None]
-        k = 0
+        k = 1 - stride
         while True:
-            k += 1
+            k += stride
             stores, pre_model = apply_history(path, [("add", 0, x) for x in pre])
             st = stores[0]
             cnt = [0]
@@ -644,10 +648,12 @@ def explore_faults(ctx: Ctx) -> Result:
             st.conn.close()
             if raised is None and cnt[0] < k:
                 break
-            if k > 500:
-                res.caps.append("F: more than 500 steps")
+            if k > 500 * stride:
+                res.caps.append("F: more than 500 abort points")
                 break
-        res.bounds[f"F_steps[{b}]"] = k - 1
+        res.bounds[f"F_steps[{b}]"] = cnt[0]
+        if stride > 1:
+            res.bounds["F_big_batch_abort_stride"] = stride
         return res
 
     return run_shards(ctx, work, combos)
